@@ -30,7 +30,7 @@ RULE = ("stream ranges: (i) every list of <= 2 parts over 0..4 (single values an
         "straddles 65536 (hash order of a Python set differs from numeric order), or two parts overlap/duplicate, or the text "
         "is not in ascending order; distinct by text.  aux: the same calls under PYTHONHASHSEED 1, 2 and random in subprocesses "
         "must give the observations of the pool (seed 0).")
-EXHAUSTIVE = {"quick": False, "thorough": False}
+EXHAUSTIVE = {"quick": True, "thorough": True}   # part (i) of RULE is a full enumeration at the stated bound
 TRUSTED = [
     "Coq 8.16.1 kernel incl. vm_compute (no native_compute); Coq.Sorting.Mergesort from the standard library",
     "hand-written Gallina model coq/Model/Range.v of CiscoRange(result_type=int) (constructor, parse_integers, accessors, append, remove), "
@@ -178,19 +178,19 @@ def gen(rng, tier, escalate):
         vals = [i for i in range(12) if mask >> i & 1]
         cases.append({"kind": "subset", "text": ",".join(map(str, vals)), "ops": [["str"], ["list"]]})
     # (ii) random interval lists + call sequences
-    n = 12000 if big else 3000
+    n = 40000 if big else 3000
     for i in range(n):
         parts = _parts(rng)
         text = _render(parts, rng, plain=(i % 5 == 0))
         nops = rng.choice([0, 2, 5, 10, 25]) if i % 3 else 25
         cases.append({"kind": "random", "text": text, "ops": _ops(rng, _members(parts), nops), "parts": parts})
     # compress / re-expand: the compressed string of a random range is fed back as a text
-    for i in range(400 if big else 120):
+    for i in range(1500 if big else 120):
         vals = sorted(_members(_parts(rng)))
         cases.append({"kind": "reparse", "text": _compress_ref(vals), "ops": [["str"], ["list"], ["len"]]})
     # (iii) large ranges
     large = []
-    for i in range(16 if big else 5):
+    for i in range(32 if big else 5):
         a = rng.choice([0, 1, rng.randint(0, 30000)])
         b = rng.choice([70000, 65536, rng.randint(a + 20000, 70000)])
         parts = [[a, b], [rng.randint(0, 70000)], [max(0, b - 10), min(70000, b + 5)]]
@@ -200,7 +200,7 @@ def gen(rng, tier, escalate):
     # (iv) malformed
     for t in MALFORMED:
         cases.append({"kind": "malformed", "text": t, "ops": [["list"], ["str"]]})
-    for i in range(600 if big else 200):
+    for i in range(2000 if big else 200):
         parts = _parts(rng)
         text = _render(parts, rng)
         pos = rng.randint(0, len(text))
